@@ -363,6 +363,12 @@ fn inflight_set(worker: usize, value: u64) {
 /// Wall-clock seconds after which a single case is *nominated* as non-terminating. The verdict
 /// is never taken from this: the driver re-runs the nominated case under a CPU-time limit.
 pub const STUCK_AFTER_S: u64 = 45;
+/// The nomination time in force: `LV_STUCK_AFTER_S` from the environment (the driver raises it when a
+/// nominated case turned out to be merely slow on a loaded machine), else the default.
+pub fn stuck_after_s() -> u64 {
+    static V: std::sync::OnceLock<u64> = std::sync::OnceLock::new();
+    *V.get_or_init(|| std::env::var("LV_STUCK_AFTER_S").ok().and_then(|v| v.parse().ok()).unwrap_or(STUCK_AFTER_S))
+}
 /// (shard, number of shards): a process only runs the cases with index % n == shard. Used to
 /// spread slow (Miri) workloads over processes.
 pub static SHARD: std::sync::OnceLock<(u64, u64)> = std::sync::OnceLock::new();
@@ -411,7 +417,7 @@ where
                 let now = t0.elapsed().as_millis() as u64;
                 for (case, start) in &active {
                     let c = case.load(Ordering::Relaxed);
-                    if c != 0 && now.saturating_sub(start.load(Ordering::Relaxed)) > STUCK_AFTER_S * 1000 {
+                    if c != 0 && now.saturating_sub(start.load(Ordering::Relaxed)) > stuck_after_s() * 1000 {
                         if let Some(path) = OUT_PATH.get() {
                             let _ = std::fs::write(format!("{}.stuck", path), format!("{}", c - 1));
                         }
